@@ -133,3 +133,14 @@ Proof.
   intros e H Hm. pose proof (proj1 (forallb_forall _ _) state_table_ok e H) as E.
   unfold state_ok in E. rewrite Hm in E. exact E.
 Qed.
+
+(* no loop of the current source walks a set: parameter reading and the calculations do not depend on the hash seed
+   through an iteration order *)
+Lemma iterations_ok : forallb iteration_ok c08_iterations = true.
+Proof. vm_compute. reflexivity. Qed.
+
+Lemma iterations_ok_forall : forall i, In i c08_iterations -> it_kind i <> ISet.
+Proof.
+  intros i H. pose proof (proj1 (forallb_forall _ _) iterations_ok i H) as E.
+  unfold iteration_ok in E. destruct (it_kind i); congruence.
+Qed.
